@@ -396,7 +396,7 @@ fn exec_inner(line: &str) -> String {
             let (a, b) = (h!(a), h!(b));
             by_enc!(*e, rel, &a, &b)
         }
-        ["hash", e, a] => {
+        ["hash", e, a] | ["hashspec", e, a] => {
             let a = h!(a);
             by_enc!(*e, hash, &a)
         }
